@@ -83,12 +83,12 @@ impl<'a> Visit<'a> for V {
         let line = i.span().start().line;
         match i {
             syn::Item::Fn(f) => { self.chk(&f.attrs, pos); self.item(&f.attrs, "fn", &f.sig.ident.to_string(), line); self.gate(&f.attrs, "fn", &f.sig.ident.to_string(), line, ""); }
-            syn::Item::Struct(f) => { self.chk(&f.attrs, pos); self.item(&f.attrs, "struct", &f.ident.to_string(), line); }
-            syn::Item::Enum(f) => { self.chk(&f.attrs, pos); self.item(&f.attrs, "enum", &f.ident.to_string(), line); }
-            syn::Item::Const(f) => { self.chk(&f.attrs, pos); self.item(&f.attrs, "const", &f.ident.to_string(), line); }
-            syn::Item::Static(f) => { self.chk(&f.attrs, pos); self.item(&f.attrs, "static", &f.ident.to_string(), line); }
-            syn::Item::Type(f) => { self.chk(&f.attrs, pos); self.item(&f.attrs, "type", &f.ident.to_string(), line); }
-            syn::Item::Trait(f) => { self.chk(&f.attrs, pos); self.item(&f.attrs, "trait", &f.ident.to_string(), line); }
+            syn::Item::Struct(f) => { self.chk(&f.attrs, pos); self.item(&f.attrs, "struct", &f.ident.to_string(), line); self.gate(&f.attrs, "struct", &f.ident.to_string(), line, ""); }
+            syn::Item::Enum(f) => { self.chk(&f.attrs, pos); self.item(&f.attrs, "enum", &f.ident.to_string(), line); self.gate(&f.attrs, "enum", &f.ident.to_string(), line, ""); }
+            syn::Item::Const(f) => { self.chk(&f.attrs, pos); self.item(&f.attrs, "const", &f.ident.to_string(), line); self.gate(&f.attrs, "const", &f.ident.to_string(), line, ""); }
+            syn::Item::Static(f) => { self.chk(&f.attrs, pos); self.item(&f.attrs, "static", &f.ident.to_string(), line); self.gate(&f.attrs, "static", &f.ident.to_string(), line, ""); }
+            syn::Item::Type(f) => { self.chk(&f.attrs, pos); self.item(&f.attrs, "type", &f.ident.to_string(), line); self.gate(&f.attrs, "type", &f.ident.to_string(), line, ""); }
+            syn::Item::Trait(f) => { self.chk(&f.attrs, pos); self.item(&f.attrs, "trait", &f.ident.to_string(), line); self.gate(&f.attrs, "trait", &f.ident.to_string(), line, ""); }
             syn::Item::Mod(f) => { self.chk(&f.attrs, pos); self.item(&f.attrs, "mod", &f.ident.to_string(), line); self.gate(&f.attrs, "mod", &f.ident.to_string(), line, &format!("{}{}", if f.content.is_some() { "inline" } else { "file" }, if matches!(f.vis, syn::Visibility::Public(_)) { "|pub" } else { "" })); }
             syn::Item::Impl(f) => { self.chk(&f.attrs, pos); }
             syn::Item::Use(f) => {
